@@ -113,7 +113,7 @@ func (*c10) Gen(seed uint64, run int, tier, variant string) interface{} {
 	if r.Chance(22) {
 		p.Op = "write"
 		if r.Chance(70) {
-			p.Writer = WriterSpec{FailCall: r.Intn(nFields(p.Kind) + 1), Mode: []string{"zero", "partial", "afterfull"}[r.Intn(3)]}
+			p.Writer = WriterSpec{FailCall: r.Intn(nFields(p.Kind) + 1), Mode: []string{"zero", "partial", "afterfull"}[r.Intn(3)], OneShot: r.Bool()}
 		}
 		return &p
 	}
@@ -196,6 +196,7 @@ func c10enum(i int) *C10Plan {
 	case 5: // writer failing at every call x mode
 		p.Op = "write"
 		p.Writer.Mode = []string{"zero", "partial", "afterfull"}[take(3)]
+		p.Writer.OneShot = take(2) == 1
 		p.Writer.FailCall = take(nFields(p.Kind)+2) - 1
 	}
 	return p
@@ -599,7 +600,7 @@ func classGroup(c string) string {
 
 func c10write(p *C10Plan, data []byte, class string) Result {
 	var res Result
-	res.Shape = fmt.Sprintf("%s write failcall=%d mode=%s", p.Kind, p.Writer.FailCall, p.Writer.Mode)
+	res.Shape = fmt.Sprintf("%s write failcall=%d mode=%s oneshot=%v", p.Kind, p.Writer.FailCall, p.Writer.Mode, p.Writer.OneShot)
 	nl := natLen(p.Kind)
 	w := NewSimWriter(p.Writer)
 	var werr error
@@ -647,6 +648,9 @@ func c10write(p *C10Plan, data []byte, class string) Result {
 	}
 	if w.Fired {
 		res.fault("write-error-" + p.Writer.Mode)
+		if p.Writer.OneShot {
+			res.fault("write-error-one-shot")
+		}
 		if werr == nil {
 			return mergeViolation(res, "write-error-ignored", "%s Write returned nil although the writer failed at call %d (%s)", p.Kind, p.Writer.FailCall, p.Writer.Mode)
 		}
